@@ -241,11 +241,14 @@ type Pair struct {
 	Keys   [2][]byte // 72-byte frame keys per direction (nil when the derivation failed)
 	KeyErr string
 
-	HelloLen  int      // client handshake request
-	RespLen   int      // server handshake response without the inline seed frame
-	PostResp  []byte   // everything the server wrote after the response up to the client's release (seed frame ‖ early data)
-	PostSent  []byte   // what the middlebox actually delivered in its place (= PostResp unless TamperPost)
-	ClientErr error    // the error Dial returned (only with AllowClientFail)
+	HelloLen  int    // client handshake request
+	RespLen   int    // server handshake response without the inline seed frame
+	PostResp  []byte // everything the server wrote after the response up to the client's release (seed frame ‖ early data)
+	PostSent  []byte // what the middlebox actually delivered in its place (= PostResp unless TamperPost)
+	ClientErr error  // the error Dial returned (only with AllowClientFail)
+	// Armed[role] (0 client, 1 server) describes the deadline halves of the underlying conn that
+	// were still armed when Dial / WrapConn returned successfully ("" = none)
+	Armed     [2]string
 	Surplus   []byte   // the part of PostResp the client's handshake reads picked up (left in receiveBuffer)
 	PostQueue [][]byte // the rest of PostResp, as the client's data-phase reads will see it
 	EarlyWire [][]byte
@@ -357,6 +360,7 @@ func Setup(p Params, o SetupOpts) (*Pair, error) {
 		pr.Close()
 		return nil, fmt.Errorf("server handshake: %v panic=%v", srvErr, opS.Panic)
 	}
+	pr.Armed[1] = armedDesc(sc)
 	first := sc.TakeWritten()
 	seedFrame := framing.FrameOverhead + 3 + 24
 	if len(first) < seedFrame {
@@ -448,7 +452,37 @@ func Setup(p Params, o SetupOpts) (*Pair, error) {
 		return nil, fmt.Errorf("client handshake: %v panic=%v", clErr, opC.Panic)
 	}
 	pr.Rd[S2C] = &Reader{Conn: cl, SC: cc}
+	pr.Armed[0] = armedDesc(cc)
 	return pr, nil
+}
+
+// DeadlineState replays a ScriptConn's event log: the read and write deadline currently armed
+// (relative to the conn's creation, 0 = none). SetDeadline sets both halves.
+func DeadlineState(evs []vlib.ConnEvent) (rdl, wdl time.Duration) {
+	for _, e := range evs {
+		switch e.Kind {
+		case "deadline":
+			rdl, wdl = e.Off, e.Off
+		case "rdeadline":
+			rdl = e.Off
+		case "wdeadline":
+			wdl = e.Off
+		}
+	}
+	return
+}
+
+func armedDesc(sc *vlib.ScriptConn) string {
+	rdl, wdl := DeadlineState(sc.EventsCopy())
+	switch {
+	case rdl != 0 && wdl != 0:
+		return fmt.Sprintf("read and write deadline still armed (+%.0fs / +%.0fs after the conn was made)", rdl.Seconds(), wdl.Seconds())
+	case rdl != 0:
+		return fmt.Sprintf("read deadline still armed (+%.0fs)", rdl.Seconds())
+	case wdl != 0:
+		return fmt.Sprintf("write deadline still armed (+%.0fs)", wdl.Seconds())
+	}
+	return ""
 }
 
 // splitHandshakeReads works out which bytes after the response the client's handshake loop
